@@ -40,7 +40,8 @@ ASSUMPTIONS = [
     "C05's hypothesis) are judged but reported under stable class keys handled by known_findings.json: 'sibling-of-another-literal' "
     "(candidate equals one literal and is a pre/post/dev/local sibling of another literal of the same set) and 'adjacent-union-gap' "
     "('a || b' over final literals where the candidate is a sibling of bounds of two different alternatives); any other failure "
-    "is a violation under its own key",
+    "is a violation under its own key; likewise C05's known finding K1 seen through C04 ('local-min-intersect': `==V` combined with a "
+    "clause whose range starts at a local build of V admits other releases below the next patch of V)",
 ]
 
 KNOWN_COMPAT_KEY = "compat-precision>3"
@@ -458,7 +459,7 @@ CORPUS: list[tuple[str, list[str]]] = [
     ("<0", ["0.dev0", "0", "0a1"]), ("<0.dev0", ["0.dev0", "0"]), ("<=0.dev0", ["0.dev0", "0", "0.0.dev0+x"]),
     (">=1.0,<2.0", ["2.0.dev0", "2.0a1", "1.9.post1", "1.0.dev0", "1.0", "2.0"]),
     (">1.0,!=1.0.post1,<=1.0.post2", ["1.0.post1", "1.0.post2", "1.0.post2+x", "1.0.post3"]),
-    (">=1.0,==1.0+x", ["1.0+x", "1.0"]), ("==1.0,!=1.0+x", ["1.0+x", "1.0+y", "1.0"]),
+    (">=1.0,==1.0+x", ["1.0+x", "1.0"]), ("==1.0,!=1.0+x", ["1.0.0.1", "1.0+x", "1.0+y", "1.0", "1.0.1"]),
     ("^1.2.3", ["1.2.3", "2.0.0.dev0", "2.0.0", "1.9.9.post1", "1.2.3.dev0", "1.2.3+x"]),
     ("^0.2.3", ["0.2.3", "0.3.0.dev0", "0.3.0", "0.2.9"]), ("^0.0.3", ["0.0.3", "0.0.4", "0.0.3.1", "0.0.4.dev0"]),
     ("^0.0", ["0.0", "0.0.5", "0.1", "0.1.dev0"]), ("^0", ["0", "0.5", "1", "1.dev0"]), ("~1.2.3", ["1.2.3", "1.2.9", "1.3.0", "1.3.0.dev0"]),
@@ -535,6 +536,35 @@ def compat_finding(s: str, cand_text: str) -> bool:
             hi = Version.parse(fmt(p[0], (p[1][0], p[1][1] + 1)))
             if lo <= c < hi:
                 return True
+    return False
+
+
+CLASS_LOCAL_MIN = "local-min-intersect"
+
+
+def local_min_finding(alts: list[str], obj: Any, cand: Any) -> bool:
+    """Known class K1 (DESIGN §6, C05's `local-min-intersect`) seen through C04: `==V` intersected with a clause whose range
+    has a local build of V as lower bound (`!=V+local`, `>V+local`) is answered `[V+local, next patch of V)`, which admits
+    versions `==V` rejects (`==1.0,!=1.0+x` admits 1.0.0.1).  Recognised at the call site exactly like
+    vc_engine.local_min_finding: a Version x and a range r with a local lower bound among the clauses / the result, x admits
+    r.min, r rejects x, and the candidate lies inside (r.min, next patch of x) while x rejects it."""
+    from poetry.core.constraints.version import Version
+    objs = [obj]
+    for a in alts:
+        for c in a.split(","):
+            o = impl_parse(c.strip()) if c.strip() else None
+            if o is not None and not isinstance(o, Exception):
+                objs.append(o)
+    items = [x for o in objs for x in o.flatten()]
+    xs = [x for x in items if isinstance(x, Version)]
+    rs = [r for r in items if not isinstance(r, Version) and r.min is not None and r.min.is_local()]
+    for x in xs:
+        for r in rs:
+            try:
+                if x.allows(r.min) and not r.allows(x) and r.min < cand < x.stable.next_patch() and not x.allows(cand):
+                    return True
+            except Exception:  # noqa: BLE001
+                continue
     return False
 
 
@@ -647,6 +677,10 @@ def run_batch(ctx: core.Ctx, items: list[tuple[str, list[str]]], tag: str, poetr
                     ctx.violate(cls, what, {"s": s, "v": c})
                 elif got == "1" and compat_finding(s, c):
                     ctx.violate(KNOWN_COMPAT_KEY, what + " (class: ~= with more than three release components)", {"s": s, "v": c})
+                elif got == "1" and local_min_finding(m["alts"], obj, probes[i]):
+                    ctx.count(f"guard:{CLASS_LOCAL_MIN}:differs-from-reference")
+                    ctx.violate(CLASS_LOCAL_MIN, what + " (class: ==V intersected with a range whose lower bound is a local build of V)",
+                                {"s": s, "v": c})
                 elif len(ctx.violations) < 12:
                     ctx.violate(f"membership:{s}|{c}", what, {"s": s, "v": c})
     ctx.stream("model-vs-impl", n_model, d_model)
@@ -723,7 +757,7 @@ def search(ctx: core.Ctx) -> None:
     if items:
         run_batch(ctx, [it for it in items if is_pep_text(it[0])], "search-disagreeing")
         run_batch(ctx, [it for it in items if not is_pep_text(it[0])], "search-disagreeing-poetry", poetry_ops=True)
-    classes = (KNOWN_COMPAT_KEY, CLASS_SIBLING, CLASS_UNION_GAP)
+    classes = (KNOWN_COMPAT_KEY, CLASS_SIBLING, CLASS_UNION_GAP, CLASS_LOCAL_MIN)
     new = [v for v in ctx.violations if v.key not in classes]
     if not new:
         for part in chunks(gen_items(ctx, 6000), 2000):
@@ -765,6 +799,8 @@ def replay(ctx: core.Ctx, payload: dict[str, Any]) -> bool:
         key = g[1:]
     elif got and compat_finding(s, v):
         key = KNOWN_COMPAT_KEY
+    elif got and local_min_finding(alts, obj, pv):
+        key = CLASS_LOCAL_MIN
     else:
         key = f"membership:{s}|{v}"
     ctx.violate(key, what, {"s": s, "v": v})
